@@ -55,6 +55,12 @@ Helpers(car) == <<
       <<PrintS(Bin("..", S("src "), V("k"))), ExprS(Ife(V("good"), Good(car, V("k")), Bad(car)))>>),
   FnD("guard", <<P("k", "int"), P("good", "bool")>>, TyOf(car, "void"),
       <<PrintS(Bin("..", S("guard "), V("k"))), ExprS(Ife(V("good"), Good(car, Nil), Bad(car)))>>),
+  \* a generic function that tries its parameter in a loop: instantiated with a void payload, the success of `?` leaves nothing
+  FnD("gtry", <<P("x", TyOf(car, "W"))>>, TyOf(car, "int"),
+      <<Var("gn", I(0)),
+        [k |-> "for", p |-> PB("gi"), it |-> [k |-> "array", e |-> Arr(<<I(1), I(2), I(3)>>)],
+         body |-> <<ExprS(Op("?", V("x"))), Assign(V("gn"), "=", Bin("+", V("gn"), V("gi")))>>],
+        ExprS(Good(car, V("gn")))>>),
   FnD(SrcAN(car), <<P("k", "int"), P("good", "bool")>>, TyOf(car, "array<int>"),
       <<PrintS(Bin("..", S("srca "), V("k"))), ExprS(Ife(V("good"), Good(car, Arr(<<V("k"), Bin("+", V("k"), I(1))>>)), Bad(car)))>> ) >>
 
@@ -64,6 +70,8 @@ Positions == <<"stmt", "let", "left", "right", "deep", "neg", "arg1of1", "arg1of
                "idxassign", "idxassigni", "fldassign", "concat", "block", "lambda", "cmp", "andrhs", "second", "first",
                \* the tried payload is void (its success leaves nothing behind), in positions where the operand stack matters
                "vstmt", "vfor", "vforarr", "voperand", "vwhile",
+               \* ... and the void payload is the instance of a type parameter (gtry above), once void and once int
+               "gvoid", "gint",
                \* the operand of the operator binds a variable itself (a match arm binding / a let in an if block)
                "m-let", "m-arg", "m-stmt", "l-let", "l-arg">>
 \* positions combined pairwise in the thorough tier
@@ -148,6 +156,8 @@ PosOf(pos, n, op, car, g) ==
                [] pos \in {"m-arg", "l-arg"} -> letv(Call("add2", <<Tr(k + 1), o>>))
                [] pos = "m-stmt" -> [ss |-> <<ExprS(o)>>, v |-> Tr(k + 1)])
     [] pos = "vstmt"   -> [ss |-> <<ExprS(TV(op, car, k + 5, g))>>, v |-> Tr(k + 1)]
+    [] pos = "gvoid"   -> letv(Op(op, Call("gtry", <<Call("guard", <<I(k + 5), g>>)>>)))
+    [] pos = "gint"    -> letv(Op(op, Call("gtry", <<Call(SrcN(car), <<I(k + 5), g>>)>>)))
     [] pos = "vfor"    -> [ss |-> <<Var(acc, I(0)),
                                     [k |-> "for", p |-> PB(ii), it |-> [k |-> "count", e |-> I(3)],
                                      body |-> <<ExprS(TV(op, car, k + 5, late(V(ii), 1))), Assign(V(acc), "=", Bin("+", V(acc), Tr(k + 1)))>>]>>,
@@ -176,7 +186,7 @@ FBody(c, g1, g2) ==
       b == IF c.pos2 = "" THEN [ss |-> <<>>, v |-> I(0)] ELSE PosOf(c.pos2, 2, c.op2, c.car, g2)
   IN <<PrintS(S("s1"))>> \o a.ss \o <<PrintS(S("s2"))>> \o b.ss \o (IF c.pos2 = "" THEN <<>> ELSE <<PrintS(S("s3"))>>)
      \o Wrap(c, Bin("+", a.v, b.v))
-CallF(c, g1, g2) == Call("f", IF c.pos2 = "" THEN <<Bl(g1)>> ELSE <<Bl(g1), Bl(g2)>>)
+CallF(c, g1, g2) == Call("f", (IF c.vp = "none" THEN <<>> ELSE <<Nil>>) \o (IF c.pos2 = "" THEN <<Bl(g1)>> ELSE <<Bl(g1), Bl(g2)>>))
 Observe(n, e) == <<Let("r" \o ToString(n), Tup(<<I(100), e, I(200)>>)), PrintS(V("r" \o ToString(n)))>>
 \* a result with a void payload is observed through a match (1 = some/ok, 0 = none/err)
 GoodC(car) == IF car = "option" THEN "some" ELSE "ok"
@@ -191,7 +201,8 @@ Flags(c) == IF c.pos2 = "" THEN <<<<TRUE, TRUE>>, <<FALSE, TRUE>>>>
             ELSE <<<<TRUE, TRUE>>, <<FALSE, TRUE>>, <<FALSE, FALSE>>, <<TRUE, FALSE>>>>
 ProgOf(c) ==
   IF c.ctx = "fn" THEN
-     LET ps == IF c.pos2 = "" THEN <<P("g1", "bool")>> ELSE <<P("g1", "bool"), P("g2", "bool")>>
+     LET ps == (CASE c.vp = "none" -> <<>> [] c.vp = "void" -> <<P("u", "void")>> [] c.vp = "generic" -> <<P("u", "U")>>)
+               \o (IF c.pos2 = "" THEN <<P("g1", "bool")>> ELSE <<P("g1", "bool"), P("g2", "bool")>>)
          fl == Flags(c)
      IN File1(<<PtT>>, Helpers(c.car) \o <<FnD("f", ps, RetTy(c), FBody(c, V("g1"), V("g2")))>>,
               ConcatAll([i \in 1..Len(fl) |-> IF RetTy(c) # "int" /\ c.ret = "void"
@@ -202,18 +213,25 @@ ProgOf(c) ==
      File1(<<PtT>>, Helpers(c.car), <<PrintS(S("s1"))>> \o a.ss \o <<PrintS(S("s2")), PrintS(a.v), PrintS(S("end"))>>)
 
 Seq2Set(s) == {s[i] : i \in 1..Len(s)}
-Singles == {[pos1 |-> p, pos2 |-> "", op1 |-> o, op2 |-> o, car |-> car, ctx |-> "fn", good1 |-> TRUE, good2 |-> TRUE, ret |-> r] :
+Singles == {[pos1 |-> p, pos2 |-> "", op1 |-> o, op2 |-> o, car |-> car, ctx |-> "fn", good1 |-> TRUE, good2 |-> TRUE, ret |-> r, vp |-> "none"] :
               p \in Seq2Set(Positions), o \in OpsTU, car \in Carriers, r \in {"int", "void"}} \ {c \in
             [pos1 : Seq2Set(Positions), pos2 : {""}, op1 : OpsTU, op2 : OpsTU, car : Carriers, ctx : {"fn"}, good1 : {TRUE}, good2 : {TRUE},
-             ret : {"void"}] : c.op1 = "!" \/ c.pos1 \in {"return", "lambda"}}
-MainSingles == {[pos1 |-> p, pos2 |-> "", op1 |-> "!", op2 |-> "!", car |-> car, ctx |-> "main", good1 |-> g, good2 |-> TRUE, ret |-> "int"] :
+             ret : {"void"}, vp : {"none"}] : c.op1 = "!" \/ c.pos1 \in {"return", "lambda"}}
+\* the enclosing function has a parameter that occupies no stack slot in front of its flags: declared void, or a type
+\* parameter instantiated with void at the call (the early return of `?` must not count it)
+VpPositions == {"stmt", "let", "right", "arg2of3", "tuple", "for", "while", "matcharm", "block", "second", "vstmt", "m-let"}
+VoidParamSingles ==
+  {[pos1 |-> p, pos2 |-> "", op1 |-> "?", op2 |-> "?", car |-> car, ctx |-> "fn", good1 |-> TRUE, good2 |-> TRUE, ret |-> "int", vp |-> v] :
+              p \in VpPositions, car \in Carriers, v \in {"void", "generic"}}
+MainSingles == {[pos1 |-> p, pos2 |-> "", op1 |-> "!", op2 |-> "!", car |-> car, ctx |-> "main", good1 |-> g, good2 |-> TRUE, ret |-> "int", vp |-> "none"] :
               p \in Seq2Set(Positions) \ {"return"}, car \in Carriers, g \in BOOLEAN}
-Pairs == {[pos1 |-> p, pos2 |-> q, op1 |-> o1, op2 |-> o2, car |-> car, ctx |-> "fn", good1 |-> TRUE, good2 |-> TRUE, ret |-> "int"] :
+Pairs == {[pos1 |-> p, pos2 |-> q, op1 |-> o1, op2 |-> o2, car |-> car, ctx |-> "fn", good1 |-> TRUE, good2 |-> TRUE, ret |-> "int", vp |-> "none"] :
               p \in Seq2Set(CorePositions), q \in Seq2Set(CorePositions), o1 \in OpsTU, o2 \in OpsTU, car \in Carriers}
 
 OpN(o) == IF o = "?" THEN "try" ELSE "unwrap"
 IdOf(c) == c.pos1 \o "-" \o OpN(c.op1) \o (IF c.pos2 = "" THEN "" ELSE "." \o c.pos2 \o "-" \o OpN(c.op2)) \o "." \o c.car \o "." \o c.ctx \o
-           (IF c.ctx = "main" THEN (IF c.good1 THEN ".ok" ELSE ".fail") ELSE "") \o (IF c.ret = "void" THEN ".retvoid" ELSE "")
+           (IF c.ctx = "main" THEN (IF c.good1 THEN ".ok" ELSE ".fail") ELSE "") \o (IF c.ret = "void" THEN ".retvoid" ELSE "") \o
+           (IF c.vp = "none" THEN "" ELSE ".param-" \o c.vp)
 CaseOf(c) ==
   LET L == Layout(ProgOf(c))
       r == Run(L.sem, 300)
